@@ -46,6 +46,33 @@ def handle(case):
     return {"viols": viols, "counts": {"blocks": len(blocks), "changed": n_changed}, "n": len(block)}
 
 
+def expanded_term_size(block):
+    """size of the largest term of the block written as a tree (sub-terms shared through DUP counted once per use):
+    a symbolic stack of sizes.  Linear blocks with an exponential value here are DAG-shaped."""
+    try:
+        need, _ = evm.stack_effect(block)
+    except Exception:
+        return 0
+    st = [1] * need
+    best = 1
+    for n, v in block:
+        if n.startswith("DUP") and n[3:].isdigit():
+            st.insert(0, st[int(n[3:]) - 1])
+        elif n.startswith("SWAP") and n[4:].isdigit():
+            k = int(n[4:])
+            st[0], st[k] = st[k], st[0]
+        else:
+            ar = evm.ARITY.get(n)
+            if ar is None:
+                break
+            args = [st.pop(0) for _ in range(min(ar[0], len(st)))]
+            for _ in range(ar[1]):
+                st.insert(0, 1 + sum(args))
+        if st:
+            best = max(best, max(st))
+    return best
+
+
 def hot_frame(scratch, pid):
     """innermost repository frame of the dump the worker's faulthandler wrote"""
     try:
@@ -131,6 +158,16 @@ def run():
                 if kind is None:
                     self.run.inconclusive.append("wall-clock watchdog only: case %s" % case.get("idx"))
                 else:
+                    blk = [(x[0], x[1]) for x in case["block"]]
+                    size = expanded_term_size(blk)
+                    if size >= 50 * max(1, len(blk)) and size >= 100000:
+                        # the block is linear but its terms, written as trees, are exponentially large: every traversal
+                        # of a term that does not remember what it has visited (search_for_value_aux and its helpers)
+                        # takes exponential time, and the copies made on the way can exhaust memory or the C stack
+                        kind += " on a block whose terms share sub-terms through DUP (tree size >= 2^%d for %s instructions)" % (
+                            min(size.bit_length() - 1, 16), "<= 100" if len(blk) <= 100 else "> 100")
+                        if where == "?" or where.startswith(("sfs_generator/", "greedy/", "verification/")):
+                            where = "the term traversal"
                     self.run.witness("%s in %s" % (kind, where),
                                      {"block": evm.to_plain_string([(x[0], x[1]) for x in case["block"]])[:600], "opts": case["opts"],
                                       "cpu_s": res.get("cpu"), "rss": res.get("rss"), "instructions": len(case["block"])})
@@ -147,7 +184,9 @@ def run():
         shutil.rmtree(scratch, ignore_errors=True)
     cpu = sorted(stats["cpu"])
     pct = lambda p: cpu[min(len(cpu) - 1, int(p * len(cpu)))] if cpu else None
-    # (b) CLI runs under several hash seeds
+    # (b) CLI runs under several hash seeds (without the DUP-shared term DAG: the supervised cases above already show that
+    #     known blow-up block by block; inside a document it would only make the whole run exceed its budget)
+    gen.HOSTILE_DAG = False
     docs = [gen.gen_document(rnd, n_contracts=2, kinds=["hostile", "hostile", "rule", "mem", "deep", "identity"]) for _ in range(4 if quick else 20)]
     seeds = ["0", "1", "2", "3"]
     jobs = [(d, opts[i % len(opts)], seeds[i % 4]) for i, d in enumerate(docs)]
